@@ -830,8 +830,10 @@ void oracle_c13_addrs(World &w, const History &)
     // which packets answered this request: read, genuine, success, for transmissions made during the request
     // the winning candidate is the last question name asked
     std::string win;
-    for (int i = t.tx_at_issue; i < t.tx_at_done && i < (int)w.txs.size(); i++)
+    for (int i = t.tx_at_issue; i < t.tx_at_done && i < (int)w.txs.size(); i++) {
+      if (w.txs[(size_t)i].token_hint >= 0 && w.txs[(size_t)i].token_hint != t.id) continue; // a transmission of another, concurrent request
       if (w.txs[(size_t)i].q.ok && !w.txs[(size_t)i].q.q.empty()) win = vdns::lower(vdns::name_text(w.txs[(size_t)i].q.q[0].labels));
+    }
     for (auto &p : w.packets) {
       if (p.forged || p.t_read < 0 || p.for_tx < t.tx_at_issue || p.for_tx >= t.tx_at_done) continue;
       if (w.txs[(size_t)p.for_tx].token_hint >= 0 && w.txs[(size_t)p.for_tx].token_hint != t.id) continue; // a transmission of another, concurrent request
@@ -902,11 +904,15 @@ void oracle_c13_addrs(World &w, const History &)
       if (is_literal) add(r.name);
       else {
         // hosts file lines: "addr name [alias...]"
+        // the hosts file this request has to be answered from: the configured one, or the one named by $CARES_HOSTS when
+        // the request carries ARES_AI_ENVHOSTS (a per-request choice)
+        const std::string &hosts_text = (r.kind == 6 && (r.ai_flags & ARES_AI_ENVHOSTS) && !w.cfg->env_hosts.empty()) ? w.cfg->env_hosts : w.cfg->hosts;
+        if (&hosts_text == &w.cfg->env_hosts) w.W("c13_env_hosts_file_used");
         size_t pos = 0;
-        while (pos < w.cfg->hosts.size()) {
-          size_t      e    = w.cfg->hosts.find('\n', pos);
-          std::string line = w.cfg->hosts.substr(pos, e == std::string::npos ? std::string::npos : e - pos);
-          pos              = e == std::string::npos ? w.cfg->hosts.size() : e + 1;
+        while (pos < hosts_text.size()) {
+          size_t      e    = hosts_text.find('\n', pos);
+          std::string line = hosts_text.substr(pos, e == std::string::npos ? std::string::npos : e - pos);
+          pos              = e == std::string::npos ? hosts_text.size() : e + 1;
           std::vector<std::string> tok;
           std::string              cur;
           for (char ch : line + " ") {
